@@ -165,6 +165,19 @@ def step (j : Json) : Json :=
     match tdDeser (getStr j "s").toList with
     | .ok t => Json.mkObj [("ok", .arr #[intToJson t.days, intToJson t.secs, intToJson t.us])]
     | .error e => errToJson e
+  | "b64_enc" => Json.mkObj [("s", .str (String.ofList (b64encode ((intsOf j "b").map Int.toNat))))]
+  | "b64_dec" =>
+    match b64decode (getStr j "s").toList with
+    | .ok bs => Json.mkObj [("ok", .arr (bs.map fun b => intToJson (b : Nat)).toArray)]
+    | .error e => errToJson e
+  | "uuid_str" =>
+    match intsOf j "u" with
+    | [u] => Json.mkObj [("s", .str (String.ofList (uuidStr u.toNat)))]
+    | _ => Json.mkObj [("bad", "uuid")]
+  | "uuid_deser" =>
+    match uuidDeser (getStr j "s").toList with
+    | .ok u => Json.mkObj [("ok", intToJson (u : Nat))]
+    | .error e => errToJson e
   | "secret" => Json.mkObj [("s", .str (secretSer (getStr j "s")))]
   | "decimal" =>
     match SerKind.ofName (getStr j "ser"), xnumOfJson (j.getObjValD "d") with
